@@ -98,16 +98,28 @@ def use_token(ex, st, base, tok, kind, what, lineno, props):
     return s
 
 
+def oracle(st, kind):
+    """can_put()/can_get() snapshot of the current atomic segment: as long as nothing changes on the edges
+    (same epoch) the answer for a store is one fixed boolean, and a reservation issued in that state is granted
+    at once exactly when the answer is True (edge interface contract, proved for Buffer and Fleet: C11)"""
+    ep = st.ghost.get("epoch", 0)
+    key = "oracle%d" % kind
+    cur = st.ghost.get(key)
+    if cur is None or cur[0] != ep:
+        cur = (ep, z3.Function("can%d!%s" % (kind, _n()), z3.IntSort(), z3.BoolSort()))
+        st.ghost[key] = cur
+    return cur[1]
+
+
 def edge_call(lib, ex, base, name, args, kw, st, node):
     lineno = node.lineno
     store = base_store(st, base)
     if name in ("reserve_put", "reserve_get"):
         kind = PUT if name == "reserve_put" else GET
         granted = None
-        fact = st.ghost.get("can_fact")
-        if fact is not None and fact[3] == st.ghost.get("epoch", 0) and fact[0] == kind:
-            # can_put()/can_get() was asked in this very state on the same edge (checked semantically)
-            granted = z3.If(fact[1] == store, fact[2], z3.Bool("granted!%s" % _n()))
+        cur = st.ghost.get("oracle%d" % kind)
+        if cur is not None and cur[0] == st.ghost.get("epoch", 0):
+            granted = cur[1](store)
         t, s = new_token(ex, st, store, kind, lineno, granted)
         return [(t, s)]
     if name in ("put", "get"):
@@ -139,10 +151,9 @@ def edge_call(lib, ex, base, name, args, kw, st, node):
             return [(Exc("RuntimeError", lineno, "ill-formed cancel"), st)]
         return [(VBool(True), s)]
     if name in ("can_put", "can_get"):
-        b = z3.Bool("%s!%s" % (name, _n()))
         s = st.fork()
-        s.ghost["can_fact"] = (PUT if name == "can_put" else GET, store, b, s.ghost.get("epoch", 0))
-        return [(VBool(b), s)]
+        fn = oracle(s, PUT if name == "can_put" else GET)
+        return [(VBool(fn(store)), s)]
     raise Unsupported("%s.%s() at line %d" % (base.kind, name, lineno))
 
 
@@ -437,12 +448,18 @@ class Yields:
         if con is None:
             raise Unsupported("sub-process %s has no contract" % g.name)
         outs = []
-        for v, s in apply_contract(ex, con, g.args, st, ynode.lineno, self.lib, self.cls):
+        gargs = dict(g.args)
+        for a, b in getattr(con, "argmap", {}).items():
+            gargs[b] = gargs[a]
+        for v, s in apply_contract(ex, con, gargs, st, ynode.lineno, self.lib, self.cls):
             if isinstance(v, Exc):
                 outs.append((v, s))
             else:
+                tag = "sub%s" % _n()
+                now2 = z3.Real(tag + ".now")
+                s.assume(now2 >= st.now)
+                s.now = now2
                 s.ghost["epoch"] = s.ghost.get("epoch", 0) + 1
-                s.ghost.pop("can_fact", None)
                 outs.append((NONE, s))
         return outs
 
